@@ -145,7 +145,7 @@ Definition icase_ret : stmt :=
   match fn_body cf_ratom_match with SSeq _ (SSeq (SIf _ (SSeq _ (SSeq _ r)) _) _) => r | _ => SSkip end.
 
 Section RatomMatch.
-  Variables (m : mem) (ba bs br bl : nat) (rs : list val) (line : bytes) (p : nat) (flg : Z) (d fuel : nat).
+  Variables (m : mem) (ba : nat) (oa : Z) (bs br bl : nat) (rs : list val) (line : bytes) (p : nat) (flg : Z) (d fuel : nat).
   Hypothesis Hr : nth_error m br = Some rs.
   Hypothesis Hr0 : nth_error rs 0 = Some (VPtr bl (Z.of_nat p)).
   Hypothesis Hr1 : nth_error rs 1 = Some (VPtr bl 0).
@@ -173,10 +173,10 @@ Section RatomMatch.
     repeat (progress (rewrite ?L_ra, ?L_s, ?L_o, ?L_f; xstep; wrap_const; zeqb_const; rewrite ?(wrap_I32_id flg Hflg);
                       cbn [b2z andb orb negb ptr_cmp]; rewrite ?Nat.eqb_refl)).
 
-  Lemma ratom_match_beg sv : nth_error m ba = Some [VInt 94; sv] ->
-    callf cprog fuel (S (S (S d))) F_ratom_match [VPtr ba 0; VPtr br 0] m = ratom_result (ratom_match flg line ABeg p).
+  Lemma ratom_match_beg : load m ba oa = Ok (VInt 94) ->
+    callf cprog fuel (S (S (S d))) F_ratom_match [VPtr ba oa; VPtr br 0] m = ratom_result (ratom_match flg line ABeg p).
   Proof.
-    intro Ha. pose proof (load_cell m ba _ 0 _ Ha eq_refl ltac:(lia)) as L_ra.
+    intro L_ra.
     enter F_ratom_match cf_ratom_match. rstep L_ra.
     unfold ratom_match, ratom_result, has, REG_NOTBOL, REG_NEWLINE.
     destruct (Z.eqb_spec (Z.of_nat p) 0) as [E0|E0].
@@ -195,10 +195,10 @@ Section RatomMatch.
     destruct (nthb line p =? 0)%N; cbn [negb b2z]; rstep L_ra; rewrite ?Same; reflexivity.
   Qed.
 
-  Lemma ratom_match_end sv : nth_error m ba = Some [VInt 36; sv] ->
-    callf cprog fuel (S (S (S d))) F_ratom_match [VPtr ba 0; VPtr br 0] m = ratom_result (ratom_match flg line AEnd p).
+  Lemma ratom_match_end : load m ba oa = Ok (VInt 36) ->
+    callf cprog fuel (S (S (S d))) F_ratom_match [VPtr ba oa; VPtr br 0] m = ratom_result (ratom_match flg line AEnd p).
   Proof.
-    intro Ha. pose proof (load_cell m ba _ 0 _ Ha eq_refl ltac:(lia)) as L_ra.
+    intro L_ra.
     enter F_ratom_match cf_ratom_match. rstep L_ra.
     unfold ratom_match, ratom_result, has, REG_NOTEOL, REG_NEWLINE.
     rewrite (rdk_in _ line p Hp). cbn [ReSyntax.bind].
@@ -222,10 +222,10 @@ Section RatomMatch.
     apply tr_re_uc_beg_line; auto; lia.
   Qed.
 
-  Lemma ratom_match_wbeg sv : nth_error m ba = Some [VInt 60; sv] ->
-    callf cprog fuel (S (S (S d))) F_ratom_match [VPtr ba 0; VPtr br 0] m = ratom_result (ratom_match flg line AWBeg p).
+  Lemma ratom_match_wbeg : load m ba oa = Ok (VInt 60) ->
+    callf cprog fuel (S (S (S d))) F_ratom_match [VPtr ba oa; VPtr br 0] m = ratom_result (ratom_match flg line AWBeg p).
   Proof.
-    intro Ha. pose proof (load_cell m ba _ 0 _ Ha eq_refl ltac:(lia)) as L_ra.
+    intro L_ra.
     enter F_ratom_match cf_ratom_match. rstep L_ra.
     unfold ratom_match, ratom_result, prev_isword.
     rewrite (rdk_in _ line p Hp). cbn [ReSyntax.bind].
@@ -242,10 +242,10 @@ Section RatomMatch.
       destruct (ReVM.isword (nthb line p)); cbn [negb b2z]; rewrite ?Same; reflexivity.
   Qed.
 
-  Lemma ratom_match_wend sv : nth_error m ba = Some [VInt 62; sv] ->
-    callf cprog fuel (S (S (S d))) F_ratom_match [VPtr ba 0; VPtr br 0] m = ratom_result (ratom_match flg line AWEnd p).
+  Lemma ratom_match_wend : load m ba oa = Ok (VInt 62) ->
+    callf cprog fuel (S (S (S d))) F_ratom_match [VPtr ba oa; VPtr br 0] m = ratom_result (ratom_match flg line AWEnd p).
   Proof.
-    intro Ha. pose proof (load_cell m ba _ 0 _ Ha eq_refl ltac:(lia)) as L_ra.
+    intro L_ra.
     enter F_ratom_match cf_ratom_match. rstep L_ra.
     unfold ratom_match, ratom_result, prev_isword.
     rewrite (rdk_in _ line p Hp). cbn [ReSyntax.bind].
@@ -266,10 +266,10 @@ Section RatomMatch.
   Lemma rs_len : (131 < length rs)%nat.
   Proof. apply nth_error_Some. rewrite Hrf. discriminate. Qed.
 
-  Lemma ratom_match_any sv : nth_error m ba = Some [VInt 46; sv] ->
-    callf cprog fuel (S (S (S d))) F_ratom_match [VPtr ba 0; VPtr br 0] m = ratom_result (ratom_match flg line AAny p).
+  Lemma ratom_match_any : load m ba oa = Ok (VInt 46) ->
+    callf cprog fuel (S (S (S d))) F_ratom_match [VPtr ba oa; VPtr br 0] m = ratom_result (ratom_match flg line AAny p).
   Proof.
-    intro Ha. pose proof (load_cell m ba _ 0 _ Ha eq_refl ltac:(lia)) as L_ra.
+    intro L_ra.
     enter F_ratom_match cf_ratom_match. rstep L_ra.
     unfold ratom_match, ratom_result, has, REG_NEWLINE.
     rewrite (rdk_in _ line p Hp). cbn [ReSyntax.bind].
@@ -292,18 +292,17 @@ Section RatomMatch.
       reflexivity.
   Qed.
 
-  Lemma ratom_match_chr_plain a : nth_error m ba = Some [VInt 0; VPtr bs 0] -> str_at m bs a -> nonul a ->
+  Lemma ratom_match_chr_plain a : load m ba oa = Ok (VInt 0) -> load m ba (oa + 1 * 1) = Ok (VPtr bs 0) -> str_at m bs a -> nonul a ->
     has flg REG_ICASE = false ->
-    callf cprog fuel (S (S (S d))) F_ratom_match [VPtr ba 0; VPtr br 0] m = ratom_result (ratom_match flg line (AChr a) p).
+    callf cprog fuel (S (S (S d))) F_ratom_match [VPtr ba oa; VPtr br 0] m = ratom_result (ratom_match flg line (AChr a) p).
   Proof.
-    intros Ha Hs Hnn Hic. pose proof (load_cell m ba _ 0 _ Ha eq_refl ltac:(lia)) as L_ra.
-    pose proof (load_cell m ba _ (0 + 1 * 1) _ Ha eq_refl ltac:(lia)) as L_as.
+    intros L_ra L_as Hs Hnn Hic.
     pose proof (nonul_lt256 a Hnn) as Ha256. pose proof rs_len as Hlen.
     unfold has, REG_ICASE in Hic. apply negb_false_iff in Hic.
     enter F_ratom_match cf_ratom_match. rstep L_ra. rewrite Hic. cbn [negb b2z]. rstep L_ra. rewrite L_as. rstep L_ra.
     unfold ratom_match, ratom_result, has, REG_ICASE. rewrite Hic. cbn [negb].
     destruct (mism_le a (skipn p line)) as [M1 M2]. rewrite skipn_length in M2.
-    pose proof (chr_loop_ok (callf cprog fuel (S (S d))) m bs bl a line p (VPtr ba 0) (VPtr br 0) VUndef VUndef VUndef VUndef
+    pose proof (chr_loop_ok (callf cprog fuel (S (S d))) m bs bl a line p (VPtr ba oa) (VPtr br 0) VUndef VUndef VUndef VUndef
                   Hs Hnn Hl H256 _ 0%nat fuel eq_refl ltac:(lia) ltac:(lia) ltac:(rewrite Nat.add_0_r; cbn [skipn]; lia)) as X.
     cbn [skipn Nat.add Z.of_nat] in X. rewrite !Nat.add_0_r in X.
     unfold chr_loop in X; cbn [fn_body cf_ratom_match] in X. rewrite X. clear X. rstep L_ra.
@@ -343,21 +342,20 @@ Section RatomMatch.
     cbn [do_builtin_m do_builtin bind]. rewrite ct_arg_ok by lia. cbn [bind]. xstep. rewrite Eu. reflexivity.
   Qed.
 
-  Lemma icase_tail_ok a fuel2 : nth_error m ba = Some [VInt 0; VPtr bs 0] -> str_at m bs a -> nonul a ->
+  Lemma icase_tail_ok a fuel2 : load m ba oa = Ok (VInt 0) -> load m ba (oa + 1 * 1) = Ok (VPtr bs 0) -> str_at m bs a -> nonul a ->
     has flg REG_ICASE = true -> Z.of_nat (length a) <= 2147483647 ->
     forall k pos x5 x6 lf, (length a - pos < k)%nat -> (pos <= length a)%nat -> (p + pos <= length line)%nat -> (k <= lf)%nat ->
     match ratom_result (chr_icase flg line k a p pos) with
     | Ok (v, m') => exists st',
         match exec (callf cprog fuel (S (S d))) lf icase_loop
-                (mkst [VPtr ba 0; VPtr br 0; VUndef; VUndef; VInt (Z.of_nat pos); x5; x6; VUndef] m) with
+                (mkst [VPtr ba oa; VPtr br 0; VUndef; VUndef; VInt (Z.of_nat pos); x5; x6; VUndef] m) with
         | ONormal st1 => exec (callf cprog fuel (S (S d))) fuel2 icase_ret st1
         | o => o
         end = OReturn v st' /\ memm st' = m'
     | Err _ => False
     end.
   Proof.
-    intros Ha Hs Hnn Hic Hmax. pose proof (load_cell m ba _ 0 _ Ha eq_refl ltac:(lia)) as L_ra.
-    pose proof (load_cell m ba _ (0 + 1 * 1) _ Ha eq_refl ltac:(lia)) as L_as.
+    intros L_ra L_as Hs Hnn Hic Hmax.
     pose proof (nonul_lt256 a Hnn) as Ha256. pose proof rs_len as Hlen.
     assert (Hic' : (Z.land flg 4 =? 0) = false) by (unfold has, REG_ICASE in Hic; apply negb_true_iff in Hic; exact Hic).
     induction k as [|k IH]; intros pos x5 x6 lf Hk Hpos Hpp Hkf; [lia|].
@@ -404,15 +402,15 @@ Section RatomMatch.
     unfold icase_loop, icase_ret in IH; cbn [fn_body cf_ratom_match] in IH. exact IH.
   Qed.
 
-  Lemma ratom_match_chr_icase a : nth_error m ba = Some [VInt 0; VPtr bs 0] -> str_at m bs a -> nonul a ->
+  Lemma ratom_match_chr_icase a : load m ba oa = Ok (VInt 0) -> load m ba (oa + 1 * 1) = Ok (VPtr bs 0) -> str_at m bs a -> nonul a ->
     has flg REG_ICASE = true -> Z.of_nat (length a) <= 2147483647 -> (length a < fuel)%nat ->
-    callf cprog fuel (S (S (S d))) F_ratom_match [VPtr ba 0; VPtr br 0] m = ratom_result (ratom_match flg line (AChr a) p).
+    callf cprog fuel (S (S (S d))) F_ratom_match [VPtr ba oa; VPtr br 0] m = ratom_result (ratom_match flg line (AChr a) p).
   Proof.
-    intros Ha Hs Hnn Hic Hmax Hfa. pose proof (load_cell m ba _ 0 _ Ha eq_refl ltac:(lia)) as L_ra.
+    intros L_ra L_as Hs Hnn Hic Hmax Hfa.
     assert (Hic' : (Z.land flg 4 =? 0) = false) by (unfold has, REG_ICASE in Hic; apply negb_true_iff in Hic; exact Hic).
     enter F_ratom_match cf_ratom_match. rstep L_ra. rewrite Hic'. cbn [negb b2z]. rstep L_ra.
     unfold ratom_match. rewrite Hic. cbn [negb].
-    pose proof (icase_tail_ok a fuel Ha Hs Hnn Hic Hmax (S (length a)) 0%nat VUndef VUndef fuel
+    pose proof (icase_tail_ok a fuel L_ra L_as Hs Hnn Hic Hmax (S (length a)) 0%nat VUndef VUndef fuel
                   ltac:(lia) ltac:(lia) ltac:(lia) ltac:(lia)) as T.
     destruct (ratom_result (chr_icase flg line (S (length a)) a p 0)) as [[v m']|]; [|contradiction].
     destruct T as [st' [X Y]]. unfold icase_loop, icase_ret in X; cbn [fn_body cf_ratom_match] in X.
@@ -421,17 +419,23 @@ Section RatomMatch.
 End RatomMatch.
 
 (* ------------------------------------------------------------------ all atoms without a bracket expression *)
-Theorem tr_ratom_match m ba bs br bl rs line a p flg d fuel :
-  ratom_at m ba bs a -> rstate_at m br bl rs p flg -> str_at m bl line -> bytes_lt256 line -> (p <= length line)%nat ->
+(* the atom is read through the pointer (ba, oa): cell oa is the kind, cell oa + 1 the string -- the first two cells of a
+   struct rinst inside the program array, or a struct ratom of its own (oa = 0) *)
+Definition ratom_at_off (m : mem) (ba : nat) (oa : Z) (bs : nat) (a : atom) : Prop :=
+  load m ba oa = Ok (VInt (ra_code a)) /\
+  match ra_str a with Some s => load m ba (oa + 1 * 1) = Ok (VPtr bs 0) /\ str_at m bs s /\ nonul s | None => True end.
+
+Theorem tr_ratom_match_at m ba oa bs br bl rs line a p flg d fuel :
+  ratom_at_off m ba oa bs a -> rstate_at m br bl rs p flg -> str_at m bl line -> bytes_lt256 line -> (p <= length line)%nat ->
   -2147483648 <= flg <= 2147483647 -> (length line < fuel)%nat -> (4 <= fuel)%nat ->
   match ra_str a with Some s => (length s < fuel)%nat /\ Z.of_nat (length s) <= 2147483647 | None => True end ->
   (forall s, a <> ABrk s) ->
-  callf cprog fuel (S (S (S d))) F_ratom_match [VPtr ba 0; VPtr br 0] m
+  callf cprog fuel (S (S (S d))) F_ratom_match [VPtr ba oa; VPtr br 0] m
   = ratom_result m br bl rs (ratom_match flg line a p).
 Proof.
-  intros [sv [Ha Hsv]] [Hr [Hr0 [Hr1 Hrf]]] Hl H256 Hp Hflg Hf Hf4 Hlen Hnb.
+  intros [Ha Hsv] [Hr [Hr0 [Hr1 Hrf]]] Hl H256 Hp Hflg Hf Hf4 Hlen Hnb.
   destruct a as [s| |s| | | |]; cbn [ra_code ra_str] in *.
-  - destruct Hsv as [-> [Hs Hnn]]. destruct Hlen as [Hl1 Hl2].
+  - destruct Hsv as [Has [Hs Hnn]]. destruct Hlen as [Hl1 Hl2].
     destruct (has flg REG_ICASE) eqn:Hic.
     + eapply ratom_match_chr_icase; eauto.
     + eapply ratom_match_chr_plain; eauto.
@@ -443,3 +447,16 @@ Proof.
   - eapply ratom_match_wend; eauto.
 Qed.
 
+Theorem tr_ratom_match m ba bs br bl rs line a p flg d fuel :
+  ratom_at m ba bs a -> rstate_at m br bl rs p flg -> str_at m bl line -> bytes_lt256 line -> (p <= length line)%nat ->
+  -2147483648 <= flg <= 2147483647 -> (length line < fuel)%nat -> (4 <= fuel)%nat ->
+  match ra_str a with Some s => (length s < fuel)%nat /\ Z.of_nat (length s) <= 2147483647 | None => True end ->
+  (forall s, a <> ABrk s) ->
+  callf cprog fuel (S (S (S d))) F_ratom_match [VPtr ba 0; VPtr br 0] m
+  = ratom_result m br bl rs (ratom_match flg line a p).
+Proof.
+  intros [sv [Ha Hsv]]. apply (tr_ratom_match_at m ba 0 bs). split.
+  - exact (load_cell m ba _ 0 _ Ha eq_refl ltac:(lia)).
+  - destruct (ra_str a); [|exact I]. destruct Hsv as [-> Hs]. split; [|exact Hs].
+    exact (load_cell m ba _ (0 + 1 * 1) _ Ha eq_refl ltac:(lia)).
+Qed.
